@@ -680,7 +680,7 @@ def exec_oracle(ctx, gc, n, shards, extra=""):
     for f in os.listdir(ctx.work):
         if f.startswith("exec%d.ndjson" % gc):
             os.remove(os.path.join(ctx.work, f))
-    out = wv(["trace-exec", "inputs=gen:%d:exec,fixtures%s" % (n, extra), "gc=%d" % gc, "seed=%d" % ctx.seed, "out=" + trace, "shards=%d" % shards])
+    out = wv(["trace-exec", "inputs=gen:%d:exec,exectab:%d,fixtures%s" % (n, max(40, n // 10), extra), "gc=%d" % gc, "seed=%d" % ctx.seed, "out=" + trace, "shards=%d" % shards])
     ctx.notes.setdefault("harness", []).append(out.strip().splitlines()[-1])
     allc = []
     from concurrent.futures import ThreadPoolExecutor
